@@ -211,24 +211,23 @@ Inductive lres := LDone (s : state) | LRaise (o : toutcome) (base : bool).
 Definition ser_raises (tn : tnode) : bool := is_opaque (meta_eff F tn).
 
 (* the node loop; every node reads the clock four times (wall, iso, iso, wall) *)
-Fixpoint loop (pd : pid) (i : nat) (p : list tnode) (s : state) (k : nat) : list (record D) * lres :=
+Fixpoint loop (pd : pid) (i : nat) (p : list tnode) (s : state) (k : nat) : list (ser D) * lres :=
   match p with
   | [] => ([], LDone s)
   | tn :: tl =>
       match exec_node (t_node tn) s with
       | Ok s' =>
           if ser_raises tn then ([], LRaise (TTrace i "TypeError") false)
-          else let '(rs, r) := loop pd (S i) tl s' (k + 4) in
-               (RSer (ser_of pd i tn s s' true "" k) :: rs, r)
+          else (ser_of pd i tn s s' true "" k :: fst (loop pd (S i) tl s' (k + 4)), snd (loop pd (S i) tl s' (k + 4)))
       | Fail e =>
           if caught (f_node_base F) e then
             if ser_raises tn then ([], LRaise (TTrace i "TypeError") false)
-            else ([RSer (ser_of pd i tn s s false (err_cls e) k)], LRaise (TPlain (Failed i e)) (base_only e))
+            else ([ser_of pd i tn s s false (err_cls e) k], LRaise (TPlain (Failed i e)) (base_only e))
           else ([], LRaise (TPlain (Failed i e)) (base_only e))
       end
   end.
 
-Definition body (pd : pid) (p : list tnode) (s : state) : list (record D) * lres :=
+Definition body (pd : pid) (p : list tnode) (s : state) : list (ser D) * lres :=
   match first_unconstructible 0 (nodes_of p) with
   | Some (i, e) => ([], LRaise (TPlain (CFailed i e)) (base_only e))
   | None => loop pd 0 p s 1
@@ -239,8 +238,9 @@ Record result := mkRes { r_out : toutcome; r_emitted : list (record D); r_drv : 
 Definition end_ts (p : list tnode) : nat := 1 + 4 * List.length p.
 
 (* try: <body> ; on_pipeline_end(ok)   except <outer>: on_pipeline_end(error); raise   finally: flush; close *)
-Definition protected (d0 : drv D) (pre : list (record D)) (b : list (record D) * lres) (p : list tnode) : result :=
-  let '(rs, r) := b in
+Definition protected (d0 : drv D) (pre : list (record D)) (b : list (ser D) * lres) (p : list tnode) : result :=
+  let rs := map RSer (fst b) in
+  let r := snd b in
   let fin (d : drv D) := if f_finally F then d_close (d_flush d) else d in
   let ts := stamp (f_drv_utc F) (e_off E) (e_clk E (end_ts p)) in
   match r with
@@ -307,21 +307,32 @@ Definition alookup {A} (k : string) (l : list (string * A)) : option A :=
 Definition chan_name (c : chan) : string :=
   match c with ChNode => "node" | ChContext => "context" | ChDefault => "default" end.
 
-Definition schema_ok (r : record D) : bool :=
-  match alookup (rtype r) (sc_required Sc), alookup (rtype r) (sc_const Sc) with
-  | Some req, Some c =>
-      String.eqb c (rtype r)
-      && forallb (fun f => smem f (fields_of r)) req
-      && match r with
-         | RSer s => smem (if s_ok s then "succeeded" else "error") (sc_status Sc)
-                     && forallb (fun e => smem (chan_name (snd e)) (sc_source Sc)) (s_sources s)
-                     && smem "PASS" (sc_result Sc) && smem "FAIL" (sc_result Sc)
-         | _ => true
-         end
+Definition fields_ok (rt : string) (fields : list string) : bool :=
+  match alookup rt (sc_required Sc), alookup rt (sc_const Sc) with
+  | Some req, Some c => String.eqb c rt && forallb (fun f => smem f fields) req
   | _, _ => false
   end.
+
+Definition enums_ok : bool :=
+  smem "succeeded" (sc_status Sc) && smem "error" (sc_status Sc)
+  && smem "node" (sc_source Sc) && smem "context" (sc_source Sc) && smem "default" (sc_source Sc)
+  && smem "PASS" (sc_result Sc) && smem "FAIL" (sc_result Sc).
+
+Definition ser_enums_ok (s : ser D) : bool :=
+  smem (if s_ok s then "succeeded" else "error") (sc_status Sc)
+  && forallb (fun e => smem (chan_name (snd e)) (sc_source Sc)) (s_sources s)
+  && smem "PASS" (sc_result Sc) && smem "FAIL" (sc_result Sc).
+
+(* a record validates against the schema the registry maps its record_type to (top-level required fields,
+   record_type const, enums) *)
+Definition schema_ok (r : record D) : bool :=
+  fields_ok (rtype r) (fields_of r) && match r with RSer s => ser_enums_ok s | _ => true end.
+
+(* the shipped schemas accept what the driver writes when nothing is dropped *)
+Definition tables_ok : bool :=
+  fields_ok "pipeline_start" (l_start L) && fields_ok "pipeline_end" (l_end L) && fields_ok "ser" (l_ser L) && enums_ok.
 End Schema.
-Arguments schema_ok {D}. Arguments rtype {D}. Arguments fields_of {D}.
+Arguments schema_ok {D}. Arguments rtype {D}. Arguments fields_of {D}. Arguments ser_enums_ok {D}.
 
 (* ---- normalisation: run id, timestamps, durations, sequence numbers removed ------------------------------------------ *)
 Definition norm_ser {D} (s : ser D) : ser D :=
